@@ -408,6 +408,9 @@ type c12Op struct {
 	path kit.PolPath // attribute values
 	src  int         // index of the other source
 	pol  int         // index into the policy list
+	// "bounce": the session leaves Established (fsmAddressFamily.dispose()), the import (imp) or export (!imp)
+	// policy is replaced with pol while it is down, and it establishes again (init())
+	imp bool
 }
 
 func (r *c12Rig) apply(op c12Op, pols []filter.Chain) {
@@ -445,6 +448,23 @@ func (r *c12Rig) apply(op c12Op, pols []filter.Chain) {
 		if err := r.srv.ReplaceExportFilterChain(r.vrf, r.peerIP, pols[op.pol]); err != nil {
 			panic(err)
 		}
+	case "bounce":
+		us := r.f.updateSender
+		go func() { <-us.destroyCh }() // the sender's goroutine was stopped in c12NewRig; dispose() stops it again
+		r.f.dispose()
+		if op.pol >= 0 {
+			var err error
+			if op.imp {
+				err = r.srv.ReplaceImportFilterChain(r.vrf, r.peerIP, pols[op.pol])
+			} else {
+				err = r.srv.ReplaceExportFilterChain(r.vrf, r.peerIP, pols[op.pol])
+			}
+			if err != nil {
+				panic(err)
+			}
+		}
+		r.f.init()
+		r.f.updateSender.Destroy()
 	}
 }
 
@@ -488,7 +508,7 @@ func c12Diff(a, b []string) string {
 
 // ---------------------------------------------------------------------------
 
-const c12Rule = "session (IPv4 or IPv6 family; eBGP / iBGP / iBGP RR client / eBGP RS client; best path only or add-path send 2..3, on best-only sessions some routes carry NO_EXPORT / NO_ADVERTISE) with generated import and export policies from the C14 grammar; history = routes received from the peer (eligible announcements, prefixes related to the policies' patterns), LocRIB paths of other sources and static routes, withdrawals, and 1-3 policy replacements (import and/or export; new policy = one-parameter mutation of the current one, an independent policy, or a copy) through bgpServer.ReplaceImportFilterChain/ReplaceExportFilterChain, with more route changes between replacements. Rig B is a fresh session with the final policies and the same route history. Compared: LocRIB.Dump and AdjRIBOut.Dump as multisets of (prefix, path value) without path ids. Non-trivial: a replaced policy and its successor treat at least one route that is stored at replacement time differently."
+const c12Rule = "session (IPv4 or IPv6 family; eBGP / iBGP / iBGP RR client / eBGP RS client; best path only or add-path send 2..3, on best-only sessions some routes carry NO_EXPORT / NO_ADVERTISE) with generated import and export policies from the C14 grammar; history = routes received from the peer (eligible announcements, prefixes related to the policies' patterns), LocRIB paths of other sources and static routes, withdrawals, and 1-3 policy replacements (import and/or export; new policy = one-parameter mutation of the current one, an independent policy, or a copy) through bgpServer.ReplaceImportFilterChain/ReplaceExportFilterChain, with more route changes between replacements; 1 in 4 replacements happens while the session is down (dispose, replace, init, routes announced again afterwards). Rig B is a fresh session with the final policies and the same route history. Compared: LocRIB.Dump and AdjRIBOut.Dump as multisets of (prefix, path value) without path ids. Non-trivial: a replaced policy and its successor treat at least one route that is stored at replacement time differently, or a policy replaced while the session is down differs from its predecessor."
 
 type c12Plan struct {
 	sess   c12Session
@@ -648,12 +668,22 @@ func c12GenPlan(t *rapid.T) c12Plan {
 			np, d = g.Mutate(t, pl.mpols[cur], l+"_mut")
 		}
 		idx := addPol(np, fmt.Sprintf("replaces #%d: %s", cur, d))
-		if imp {
+		down := rapid.IntRange(0, 3).Draw(t, l+"_while_down") == 0
+		switch {
+		case down:
+			pl.ops = append(pl.ops, c12Op{kind: "bounce", pol: idx, imp: imp})
+		case imp:
 			pl.ops = append(pl.ops, c12Op{kind: "replace-import", pol: idx})
+		default:
+			pl.ops = append(pl.ops, c12Op{kind: "replace-export", pol: idx})
+		}
+		if imp {
 			curImp = idx
 		} else {
-			pl.ops = append(pl.ops, c12Op{kind: "replace-export", pol: idx})
 			curExp = idx
+		}
+		if down && rapid.Bool().Draw(t, l+"_then_routes") {
+			genRoutes(l+"d", rapid.IntRange(1, 3).Draw(t, l+"_ndown"))
 		}
 		if k+1 < nrep || rapid.IntRange(0, 3).Draw(t, l+"_more") == 0 {
 			genRoutes(l+"r", rapid.IntRange(0, 3).Draw(t, l+"_nmore"))
@@ -706,6 +736,21 @@ func c12Check(t *rapid.T, c *kit.Case, rec *kit.Recorder) {
 			k := "static|" + op.pfx.Key() + "|" + op.path.StaticNH.String()
 			stored[k], storedPfx[k] = op.path, op.pfx
 			c.Logf("op %d: static %v nh=%v", i, op.pfx, op.path.StaticNH)
+		case "bounce":
+			c.Logf("op %d: session goes down, %s policy replaced with #%d (%s) while it is down, session establishes again", i, map[bool]string{true: "import", false: "export"}[op.imp], op.pol, pl.descs[op.pol])
+			for k := range stored {
+				if strings.HasPrefix(k, "recv|") {
+					delete(stored, k)
+				}
+			}
+			old := curExp
+			if op.imp {
+				old, curImp = curImp, op.pol
+			} else {
+				curExp = op.pol
+			}
+			c.Class("replaced_while_session_down")
+			c.NonTrivialIf(!pols[old].Equal(pols[op.pol]))
 		case "replace-import", "replace-export":
 			c.Logf("op %d: %s with policy #%d (%s)", i, op.kind, op.pol, pl.descs[op.pol])
 			old := curExp
@@ -746,6 +791,9 @@ func c12Check(t *rapid.T, c *kit.Case, rec *kit.Recorder) {
 	for _, op := range pl.ops {
 		if op.kind == "replace-import" || op.kind == "replace-export" {
 			continue
+		}
+		if op.kind == "bounce" {
+			op.pol = -1 // the same session history, without the replacement
 		}
 		bb.apply(op, pols)
 	}
